@@ -21,27 +21,44 @@ var undoFamilies = []family{
 func c15Scenarios(tier string) []*hist.Scenario {
 	var out []*hist.Scenario
 	never := hist.Config{Threshold: hist.Big, Interval: hist.Big}
-	for _, f := range undoFamilies {
-		for _, op := range f.ops {
-			k, u, y := 2, 2, 3
-			if tier == "thorough" {
-				k, u, y = 3, 2, 4
+	single := func(k, u, y int) {
+		for _, f := range undoFamilies {
+			for _, op := range f.ops {
+				out = append(out, &hist.Scenario{Name: fmt.Sprintf("c15/%s/%s/N2K%dU%dY%d", f.name, op, k, u, y),
+					N: 2, Init: f.init, Alphabet: []string{op}, K: k, U: u, Y: y, Cfg: never})
 			}
-			out = append(out, &hist.Scenario{Name: fmt.Sprintf("c15/%s/%s/N2K%dU%dY%d", f.name, op, k, u, y),
-				N: 2, Init: f.init, Alphabet: []string{op}, K: k, U: u, Y: y, Cfg: never})
-		}
-		for _, al := range pairs(f.ops) {
-			if len(al) == 1 {
-				continue
-			}
-			k, u, y := 2, 1, 3
-			if tier == "thorough" {
-				k, u, y = 2, 2, 4
-			}
-			out = append(out, &hist.Scenario{Name: fmt.Sprintf("c15/%s/%s/N2K%dU%dY%d", f.name, strings.Join(al, "+"), k, u, y),
-				N: 2, Init: f.init, Alphabet: al, K: k, U: u, Y: y, Cfg: never})
 		}
 	}
+	pair := func(k, u, y, maxPer int) {
+		for _, f := range undoFamilies {
+			for _, al := range pairs(f.ops) {
+				if len(al) == 1 {
+					continue
+				}
+				tag := ""
+				if maxPer > 0 {
+					tag = fmt.Sprintf("M%d", maxPer)
+				}
+				out = append(out, &hist.Scenario{Name: fmt.Sprintf("c15/%s/%s/N2K%dU%dY%d%s", f.name, strings.Join(al, "+"), k, u, y, tag),
+					N: 2, Init: f.init, Alphabet: al, K: k, U: u, Y: y, MaxPerClient: maxPer, Cfg: never})
+			}
+		}
+	}
+	// Smallest shapes first (histories in normal form before no-effect pruning,
+	// `vcheck countshape`): single kind K1U2Y2 1.8k, K2U1Y2 1.0k, K2U2Y2 6.6k,
+	// K1U3Y2 8.2k, K2U2Y3 26k; pair of kinds K2U1Y2 with one edit per client
+	// 1.5k, unrestricted 3.3k, K2U2Y2 one edit per client 10k.
+	single(1, 2, 2)
+	pair(2, 1, 2, 1)
+	if tier == "quick" {
+		return out
+	}
+	single(2, 1, 2)
+	single(2, 2, 2)
+	pair(2, 1, 2, 0)
+	single(1, 3, 2)
+	pair(2, 2, 2, 1)
+	single(2, 2, 3)
 	return out
 }
 
@@ -81,6 +98,6 @@ func init() {
 		Rule: "every normal-form history of 2 clients with <=K edits (C14 alphabet, single kinds and pairs per data type), <=U undo/redo calls (each only when CanUndo/CanRedo), <=Y syncs at every placement, GC on; " +
 			"oracle: C01's (no sync error, replicas byte-identical after the quiescent closure and equal to the server rebuild) plus clone==root; non-trivial = concurrent edits/undos by different clients",
 		Assume:      []string{"memdb backend", "small-scope bounds per scenario name"},
-		QuickBudget: 150 * time.Second,
+		QuickBudget: 300 * time.Second,
 	})
 }
